@@ -66,31 +66,35 @@ def _process_step_expression(
 
         case 'union' | 'intersection' | 'difference':
             # The set operators are used to combine the left hand and right
-            # hand targets accordingly.
-            lh_targets, lh_attack_steps = _process_step_expression(
-                lang_graph, model, target_assets, step_expression['lhs'])
-            rh_targets, rh_attack_steps = _process_step_expression(
-                lang_graph, model, target_assets, step_expression['rhs'])
-
+            # hand targets accordingly. They apply to the assets reached from
+            # each of the current target assets separately.
             new_target_assets = []
-            lh_ids = [lnode.id for lnode in lh_targets]
-            rh_ids = [rnode.id for rnode in rh_targets]
-            match (step_expression['type']):
-                case 'union':
-                    new_target_assets = list(lh_targets)
-                    for ag_node in rh_targets:
-                        if ag_node.id not in lh_ids:
-                            new_target_assets.append(ag_node)
+            for target_asset in target_assets:
+                lh_targets, lh_attack_steps = _process_step_expression(
+                    lang_graph, model, [target_asset],
+                    step_expression['lhs'])
+                rh_targets, rh_attack_steps = _process_step_expression(
+                    lang_graph, model, [target_asset],
+                    step_expression['rhs'])
 
-                case 'intersection':
-                    for ag_node in rh_targets:
-                        if ag_node.id in lh_ids:
-                            new_target_assets.append(ag_node)
+                lh_ids = [lnode.id for lnode in lh_targets]
+                rh_ids = [rnode.id for rnode in rh_targets]
+                match (step_expression['type']):
+                    case 'union':
+                        new_target_assets.extend(lh_targets)
+                        for ag_node in rh_targets:
+                            if ag_node.id not in lh_ids:
+                                new_target_assets.append(ag_node)
 
-                case 'difference':
-                    for ag_node in lh_targets:
-                        if ag_node.id not in rh_ids:
-                            new_target_assets.append(ag_node)
+                    case 'intersection':
+                        for ag_node in rh_targets:
+                            if ag_node.id in lh_ids:
+                                new_target_assets.append(ag_node)
+
+                    case 'difference':
+                        for ag_node in lh_targets:
+                            if ag_node.id not in rh_ids:
+                                new_target_assets.append(ag_node)
 
             return (new_target_assets, None)
 
